@@ -186,11 +186,12 @@ Section OneRegion.
 
   (* a guard that asks for at least one byte (or starts inside a page) gets its window *)
   Lemma guarded_done goff glen wr : on_demand g = true -> goff + glen <= xr_size g ->
-    (0 < glen \/ 0 < goff mod ps) ->
+    0 < glen ->
     exists l w, guarded m o g goff glen wr = (l, Val (Some w)).
   Proof.
     intros D In NZ. pose proof W64_big as WB.
     unfold guarded, open_window. rewrite D. fold ps.
+    destruct (N.eqb_spec glen 0) as [Z|_]; [lia|].
     rewrite (window_arith_spec m ps goff glen Hps ltac:(lia)).
     assert (PBle : goff / ps * ps <= goff).
     { pose proof (N.div_mod goff ps ltac:(lia)) as E. remember (goff / ps) as q. nia. }
@@ -272,15 +273,18 @@ Section OneRegion.
           unfold covered. apply existsb_exists. exists (DMap (w_gref w) (w_count w) (w_index w)).
           split; [apply In_dev_evs; exact B5|]. cbn [fst snd]. rewrite Cp, Cg.
           apply andb_true_iff. split; apply N.leb_le; nia.
-        * exfalso. unfold guarded in G. rewrite D in G.
-          destruct (open_window m o g goff glen (if wr then PROT_WRITE else PROT_READ)) as [l1 [w1| |]]; try discriminate.
-          destruct (close_window m o w1); discriminate.
+        * (* completed without a window: only an empty guard does that (new_with's early return) *)
+          assert (GZ : glen = 0).
+          { unfold guarded in G. rewrite D in G. destruct (N.eqb_spec glen 0) as [Z|NZ]; [exact Z|exfalso].
+            destruct (open_window m o g goff glen (if wr then PROT_WRITE else PROT_READ)) as [l1 [w1| |]]; try discriminate.
+            destruct (close_window m o w1); discriminate. }
+          assert (tlen = 0) by lia. subst tlen. reflexivity.
         * (* the guard panicked: it asked for 0 bytes at a page boundary, nothing was to be touched *)
           destruct (N.ltb_spec 0 glen) as [GL|GL].
-          -- destruct (guarded_done goff glen wr D A3 (or_introl GL)) as [l' [w' E']]. congruence.
+          -- destruct (guarded_done goff glen wr D A3 GL) as [l' [w' E']]. congruence.
           -- assert (tlen = 0) by lia. subst tlen. reflexivity.
         * destruct (N.ltb_spec 0 glen) as [GL|GL].
-          -- destruct (guarded_done goff glen wr D A3 (or_introl GL)) as [l' [w' E']]. congruence.
+          -- destruct (guarded_done goff glen wr D A3 GL) as [l' [w' E']]. congruence.
           -- assert (tlen = 0) by lia. subst tlen. reflexivity.
       + (* unguarded: excluded *)
         exfalso. pose proof (plan_shape m (xr_size g) x op _ SZ X P) as S. cbn in S. tauto.
